@@ -197,7 +197,7 @@ func c08sub(c *ctx) {
 		keys := newServerKeys(r)
 		sta := newState(keys, stateOpts{bypass: [][]byte{c08UID}, now: time.Now})
 		t0 := time.Now()
-		period := 12 * time.Hour
+		period := server.VerifCleanerPeriod()
 		c.o.T("rc.new", "ok")
 		plans, label := c08plans(r, idx, c.thorough())
 		type event struct {
